@@ -17,7 +17,7 @@ from . import common, family as F
 from .common import cN, cbool, clist, copt, cstr
 
 THEOREMS = [
-    "create_meets_spec", "create_mirrors_type", "member_object_mirrors_type", "build_fuel_sufficient",
+    "create_meets_spec", "create_meets_strict_spec_partial", "create_undeclared_prefix_raises", "create_mirrors_type", "member_object_mirrors_type", "build_fuel_sufficient",
     "split_wellformed", "split_fuel_sufficient", "qualify_spellings", "create_spelling_independent",
     "create_known_name_mirrors", "create_unknown_raises", "create_never_partial",
     "content_model_flattening_agrees", "object_vs_dict_request",
@@ -26,18 +26,14 @@ THEOREMS = [
 
 PRE = "From SV Require Import Lib.Base Fam.Schema C03.Model C03.Spec."
 
-# finding classes this check can report.  The first group are violations of
-# the specification (VIOLATION unless listed as known); the CANDIDATES are
-# behaviours that contradict only the strictest reading of the text: they are
-# counted in the evidence and reported as findings only when the maintainers
-# list them in KNOWN_FINDINGS.json.
-CANDIDATES = {
+# finding classes with a fixed wording (the others are worded where they are found)
+FINDINGS = {
     "C03:undeclared-prefix-raises-plain-exception":
-        "factory.create('zz:T') with a prefix the WSDL does not declare raises a bare Exception "
-        "('prefix (zz) not resolved') instead of TypeNotFound",
+        "factory.create(%r) with a prefix the WSDL does not declare raises a bare Exception (%s) instead of "
+        "TypeNotFound (repaired in /repo by 4632494: this is a regression)",
     "C03:enum-member-prebuilt-as-property":
-        "a required single member whose type is an enumeration is pre-built as a Property object "
-        "{value = None} instead of None",
+        "a required non-repeating member whose type is an enumeration is pre-built as a Property object "
+        "{value = None} instead of None: factory.create(%r) = %s",
 }
 
 HID = 50          # namespace index offset of the (unnameable) anonymous complex types
@@ -117,6 +113,47 @@ def related(S, a, b):
     return S.derived_from(a, b) or S.derived_from(b, a)
 
 
+def add_shapes(rng, S):
+    """fixed shapes every interface carries (in random namespaces):
+    Drawing{seg: Segment{start: Point, end: Point}, shape: Shape, title?}   two same-typed required
+        complex siblings below the top level (history must be copied per child);
+    Shape{id, choice(circle | square | pt: Point), label, @unit}            a choice followed by
+        sequence members and an attribute (sudsobject.Iter ordering vs insertion order);
+    Order{customer: Customer{name, address: Address{street, city, @kind}}, total, @ref}
+        dotted paths of >= 3 parts through elements typed by reference to named types."""
+    nns = len(S.namespaces)
+
+    def E(name, ns, tref, **kw):
+        e = F.Elem(name, ns, S.namespaces[ns][1], tref, **kw)
+        e.pinned = True
+        return e
+
+    def T(name, kids, attrs):
+        ns = rng.randrange(nns)
+        t = F.CType(name, ns, None, [F.Cont("sequence", False, kids(ns))], attrs)
+        t.pinned = True
+        S.types.append(t)
+        return t
+
+    point = T("Point", lambda ns: [E("x", ns, ("b", "int")), E("y", ns, ("b", "int"))],
+              [F.Attr("unit", "string", default="adef")])
+    P = ("n", point.ns, point.name)
+    seg = T("Segment", lambda ns: [E("start", ns, P), E("end", ns, P)], [])
+    shape = T("Shape", lambda ns: [E("id", ns, ("b", "int")),
+                                   F.Cont("choice", False, [E("circle", ns, ("b", "int")),
+                                                            E("square", ns, ("b", "string")),
+                                                            E("pt", ns, P)]),
+                                   E("label", ns, ("b", "string"))],
+              [F.Attr("unit", "string", default="adef")])
+    T("Drawing", lambda ns: [E("seg", ns, ("n", seg.ns, seg.name)), E("shape", ns, ("n", shape.ns, shape.name)),
+                             E("title", ns, ("b", "string"), opt=True)], [])
+    addr = T("Address", lambda ns: [E("street", ns, ("b", "string")), E("city", ns, ("b", "string"))],
+             [F.Attr("kind", "string")])
+    cust = T("Customer", lambda ns: [E("name", ns, ("b", "string")), E("address", ns, ("n", addr.ns, addr.name))], [])
+    T("Order", lambda ns: [E("customer", ns, ("n", cust.ns, cust.name)), E("total", ns, ("b", "decimal"))],
+      [F.Attr("ref", "string", required=True)])
+
+
 def gen_interface(rng):
     S = F.gen_schema(rng, allow_any=True, max_types=5)
     nns = len(S.namespaces)
@@ -173,13 +210,16 @@ def gen_interface(rng):
                 ea.name = eb.name
                 feats.add("same-name-in-two-types")
                 break
+    add_shapes(rng, S)
+    feats.add("fixed-shapes")
     # anonymous complex types: a local or global element carrying its own <complexType>
     # (abstractly: a type in a namespace no spelling can name, called like the element)
     S.visible = list(S.types)
     if rng.random() < 0.5:
         for _ in range(rng.choice([1, 2])):
             src = rng.choice(S.visible)
-            cands = [x for x in all_elems(S) if x[2].default is None and x[0].ns < HID]
+            cands = [x for x in all_elems(S) if x[2].default is None and x[0].ns < HID
+                     and not getattr(x[2], "pinned", False)]
             if not cands:
                 break
             (t, c, e) = rng.choice(cands)
@@ -208,7 +248,8 @@ def gen_interface(rng):
     S.gelems.append(GElem("gc", rng.randrange(nns), ("n", t.ns, t.name)))
     if rng.random() < 0.25:
         # an element called like a type (separate symbol spaces in XSD)
-        t1, t2 = rng.choice(S.visible), rng.choice(S.visible)
+        t1 = rng.choice([t for t in S.visible if not getattr(t, "pinned", False)])
+        t2 = rng.choice(S.visible)
         S.gelems.append(GElem(t1.name, t1.ns, ("n", t2.ns, t2.name)))
         feats.add("element-named-like-type")
     if any(isinstance(p, F.Any) for t in S.types for p, _ in S.flat(t)):
@@ -467,6 +508,31 @@ def member_walks(rng, S, t, max_depth):
     return out
 
 
+def deep_paths(S, t, max_members=3, limit=6):
+    """dotted member paths of >= 2 members from type t whose second-to-last member is an element
+    typed by reference to a complex type; ends on elements and on an @attribute"""
+    out = []
+
+    def rec(cur, path, seen):
+        for p, _ in S.flat(cur):
+            if len(out) >= limit:
+                return
+            if not (isinstance(p, F.Elem) and p.tref[0] == "n"):
+                continue
+            nxt = S.type(p.tref[1], p.tref[2])
+            if nxt is None:
+                continue
+            newpath = path + [(None, False, p.name)]
+            ends = [(None, False, q.name) for q, _ in S.flat(nxt) if isinstance(q, F.Elem)][:2]
+            ends += [(None, True, a.name) for a in S.all_attrs(nxt)][:1]
+            for e in ends:
+                out.append(newpath + [e])
+            if len(newpath) < max_members - 1 and id(nxt) not in seen:
+                rec(nxt, newpath, seen | {id(nxt)})
+    rec(t, [], {id(t)})
+    return out
+
+
 def gen_spellings(rng, S, R, thorough):
     """[(text, Sp or None, class label)]"""
     out = []
@@ -501,6 +567,13 @@ def gen_spellings(rng, S, R, thorough):
             if len(w) >= 2:
                 sp = rng.choice(root_forms(rng, S, R, ns, name)).with_members(w)
                 out.append((sp.text(), sp, "member-depth%d" % len(w)))
+    # 2b. paths of three and more parts through members typed by reference, in every root form
+    for t in S.visible:
+        pinned = getattr(t, "pinned", False)
+        for w in deep_paths(S, t, limit=8 if (pinned or thorough) else 2):
+            for sp in root_forms(rng, S, R, t.ns, t.name, all_forms=pinned or thorough):
+                sp = sp.with_members(w)
+                out.append((sp.text(), sp, "deep-path-%d%s" % (len(w) + 1, "-attr" if w[-1][1] else "")))
     # 3. enumeration values by path (no claim) and members of simple things
     for s in S.simples:
         for v in s.vals[:2]:
@@ -511,7 +584,10 @@ def gen_spellings(rng, S, R, thorough):
     t = rng.choice(S.visible)
     uri_t = S.namespaces[t.ns][0]
     pfx_t = R.prefixes[t.ns]
-    bogus = rng.choice(["Bogus", "T", "T99", t.name + "x", t.name.lower(), "e0", "op", "value", "x" + t.name])
+    # never the name of a local element: ElementQuery's deep search (not modelled) would find it
+    taken = set(schema_names(S))
+    bogus = rng.choice([b for b in ["Bogus", "T", "T99", t.name + "x", t.name.lower(), "e0", "op", "value",
+                                    "x" + t.name] if b not in taken or b == "value"] or ["Bogus"])
     unknown.append(Sp(("plain", bogus)))
     unknown.append(Sp(("prefixed", pfx_t, bogus)))
     unknown.append(Sp(("braced", uri_t, bogus)))
@@ -621,15 +697,55 @@ def fill(rng, client, S, R, obj, t, depth):
             setattr(obj, k, None)
             continue
         setattr(obj, k, value_for(e, depth))
+    # one branch of some choices (the factory leaves all of them out)
+    for c in S.chain(t):
+        for top in c.content:
+            for ch in outer_choices(top):
+                leaves = [e for e in leaf_elems(ch) if e.name not in obj.__keylist__
+                          and (e.tref[0] == "b" or depth < 3)]
+                if leaves and rng.random() < 0.7:
+                    e = rng.choice(leaves)
+                    v = value_for(e, depth)
+                    setattr(obj, e.name, [v] if e.multi else v)
 
 
-def to_dict(v):
+def outer_choices(p):
+    if isinstance(p, F.Cont):
+        if p.kind == "choice":
+            return [p]
+        return [c for k in p.kids for c in outer_choices(k)]
+    return []
+
+
+def leaf_elems(p):
+    if isinstance(p, F.Cont):
+        return [e for k in p.kids for e in leaf_elems(k)]
+    return [p] if isinstance(p, F.Elem) else []
+
+
+def to_dict(S, v, t):
+    """the equivalent dict of a filled factory object of complex type t: the same members, written
+    down in schema order (not in the object's own iteration order), attributes last"""
     import suds.sudsobject as so
-    if isinstance(v, so.Object):
-        return dict((k, to_dict(x)) for k, x in v)
     if isinstance(v, list):
-        return [to_dict(x) for x in v]
-    return v
+        return [to_dict(S, x, t) for x in v]
+    if not isinstance(v, so.Object):
+        return v
+    if t is None:
+        return dict((k, getattr(v, k)) for k in v.__keylist__)
+    members = {}
+    order = []
+    for p, _ in S.flat(t):
+        if isinstance(p, F.Elem) and p.name not in members:
+            members[p.name] = p
+            order.append(p.name)
+    keys = [k for k in order if k in v.__keylist__] + [k for k in v.__keylist__ if k not in members]
+    out = {}
+    for k in keys:
+        e = members.get(k)
+        tt = S.type(e.tref[1], e.tref[2]) if (e is not None and e.tref[0] == "n") else None
+        out[k] = to_dict(S, getattr(v, k), tt)
+    return out
 
 
 # ---------------------------------------------------------------------------
@@ -746,7 +862,7 @@ def run(ck):
                             o = client.factory.create("{%s}%s" % (S.namespaces[tt.ns][0], tt.name))
                             fill(rng, client, S, R, o, tt, 1)
                             okw[p.name] = o
-                            dkw[p.name] = to_dict(o)
+                            dkw[p.name] = to_dict(S, o, tt)
                     if not okw:
                         continue
                     errs = []
@@ -803,7 +919,7 @@ def run(ck):
         wdefs_by_index[int(d.split()[1][1:])] = d
 
     n_claimed = n_guard = n_inst_bad = 0
-    cand_seen = {}
+    n_strict = {}
     for bi, chunk in enumerate(batches(create_cases)):
         preds = ["create_agrees", "create_spec_ok", "create_strict_ok", "create_claimed",
                  "fun c => negb (theorem_guard c)", "theorem_instance"]
@@ -815,7 +931,10 @@ def run(ck):
         for i in sorted(spec_bad):
             m = chunk[i][2]
             impl = m["impl"]
-            if impl.startswith("TypeNotFound"):
+            if impl.startswith("Exception(prefix (") and "not resolved" in impl:
+                key, what = "C03:undeclared-prefix-raises-plain-exception", \
+                    FINDINGS["C03:undeclared-prefix-raises-plain-exception"]
+            elif impl.startswith("TypeNotFound"):
                 key, what = "C03:known-name-not-created", "factory.create(%r) raises %s for a name the WSDL declares"
             elif "(" in impl and not impl.startswith("(") and not impl.startswith("<empty>") and \
                     impl.split("(")[0].endswith(("Error", "Exception")):
@@ -828,26 +947,24 @@ def run(ck):
                     "factory.create(%r) returns an object that is not the content model of the type: %s"
             ck.failing_input(key, what % (m["path"], impl[:300]),
                              {"wsdl": m["wsdl"].decode("utf-8"), "path": m["path"], "impl": impl, "case": chunk[i][1]})
+        # the letter of the text (strict reading): the only departure the lenient
+        # specification tolerates is the enumeration-typed required member
         for i in res["create_strict_ok"]:
             if i in spec_bad:
                 continue
             m = chunk[i][2]
-            key = "C03:undeclared-prefix-raises-plain-exception" if m["impl"].startswith("Exception(") \
-                else "C03:enum-member-prebuilt-as-property"
-            cand_seen.setdefault(key, {"count": 0, "path": m["path"], "impl": m["impl"][:400], "wsdl": m["wsdl"]})
-            cand_seen[key]["count"] += 1
+            key = "C03:enum-member-prebuilt-as-property"
+            n_strict[key] = n_strict.get(key, 0) + 1
+            ck.failing_input(key, FINDINGS[key] % (m["path"], m["impl"][:300]),
+                             {"wsdl": m["wsdl"].decode("utf-8"), "path": m["path"], "impl": m["impl"],
+                              "case": chunk[i][1]})
         dis = [i for i in res["create_agrees"] if i not in spec_bad]
         if dis:
             m = chunk[dis[0]][2]
             unproved.append({"correspondence": "create_agrees", "count": len(dis),
                              "first": {"path": m["path"], "impl": m["impl"], "case": chunk[dis[0]][1],
                                        "wsdl": m["wsdl"].decode("utf-8")}})
-    for key, c in cand_seen.items():
-        ck.extra.setdefault("strict_reading_candidates", {})[key] = {"count": c["count"], "path": c["path"],
-                                                                     "impl": c["impl"]}
-        if key in ck.known:
-            ck.failing_input(key, CANDIDATES[key], {"wsdl": c["wsdl"].decode("utf-8"), "path": c["path"],
-                                                   "impl": c["impl"]})
+    ck.extra["strict_reading_departures"] = n_strict
     ck.extra["create_cases_inside_the_claim"] = n_claimed
     ck.extra["create_cases_inside_theorem_guard"] = n_guard
     ck.extra["theorem_instance_failures"] = n_inst_bad
